@@ -21,6 +21,7 @@ def check(run):
         run.rule(r, t)
     for cfg in configs(run, extra_quick=('nd',)):
         F = run.facts(cfg)
+        if cfg == 'base': __import__('common').pins(run, F, 'core_defaults')
         n = tl.check_impls(run, F)
         run.floor('TL.impl', 'unsafe impl TrustedLen (config %s)' % cfg, n,
                   {'base': 24, 'nd': 29, 'full': 33}.get(cfg, 24))
